@@ -35,11 +35,19 @@ type State struct {
 	inLoop map[int]bool
 	loopPre map[int]*State // state at loop entry (before havoc), for pre()
 	allocs []Term // references allocated in this activation
+	boxed  map[string]Value // interface term -> the value it was made from
+	heapTop map[string]Term // allocation top when the current version of a heap array was created
+	entryTop Term
+	epochTop Term
 	dead   bool
 }
 
 func (s *State) clone() *State {
-	n := &State{pc: s.pc, top: s.top, dead: s.dead}
+	n := &State{pc: s.pc, top: s.top, dead: s.dead, entryTop: s.entryTop, epochTop: s.epochTop}
+	n.heapTop = make(map[string]Term, len(s.heapTop))
+	for k, v := range s.heapTop {
+		n.heapTop[k] = v
+	}
 	n.regs = make(map[ssa.Value]Value, len(s.regs))
 	for k, v := range s.regs {
 		n.regs[k] = v
@@ -71,6 +79,10 @@ func (s *State) clone() *State {
 		n.loopPre[k] = v
 	}
 	n.allocs = append([]Term(nil), s.allocs...)
+	n.boxed = make(map[string]Value, len(s.boxed))
+	for k, v := range s.boxed {
+		n.boxed[k] = v
+	}
 	return n
 }
 
@@ -185,6 +197,28 @@ func (x *Exec) heapSet(st *State, kind string, base types.Type, leaf Leaf, val T
 	f := x.fresh(st, name, val.Sort)
 	st.assume(mkEq(f, val))
 	st.heap[name] = f
+	x.setHeapTop(st, name)
+}
+
+func (x *Exec) setHeapTop(st *State, name string) {
+	if st.heapTop == nil {
+		st.heapTop = map[string]Term{}
+	}
+	st.heapTop[name] = st.top
+}
+
+// heapTopOf bounds every reference stored in the current version of the named heap array.
+func (x *Exec) heapTopOf(st *State, name string) Term {
+	if t, ok := st.heapTop[name]; ok {
+		return t
+	}
+	if _, ok := st.heap["!epoch"]; ok && st.epochTop.S != "" {
+		return st.epochTop
+	}
+	if st.entryTop.S != "" {
+		return st.entryTop
+	}
+	return st.top
 }
 
 func (x *Exec) heapHavoc(st *State, name string) {
@@ -194,6 +228,7 @@ func (x *Exec) heapHavoc(st *State, name string) {
 	}
 	f := x.fresh(st, name, x.heapSort(m.kind, m.leaf.Sort))
 	st.heap[name] = f
+	x.setHeapTop(st, name)
 }
 
 // havocAllHeap replaces every heap array known so far by a fresh one.
@@ -209,10 +244,17 @@ func (x *Exec) havocAllHeap(st *State) {
 	for _, n := range names {
 		x.heapHavoc(st, n)
 	}
+	for _, n := range sortedKeys(x.mapInfo) {
+		st.heap[n] = x.fresh(st, n, x.mapInfo[n])
+	}
 	st.heap["!epoch"] = Term{fmt.Sprintf("%d", x.names.n), sInt}
 	nt := x.fresh(st, "top", sInt)
 	st.assume(mkCmp(">=", nt, st.top))
 	st.top = nt
+	st.epochTop = nt
+	for _, n := range names {
+		st.heapTop[n] = nt
+	}
 }
 
 func leafAt(base types.Type, i int) Leaf { return flatten(base)[i] }
@@ -269,7 +311,16 @@ func (x *Exec) load(st *State, p *Ptr) Value {
 	}
 	if p.Kind != pLocal {
 		st.assumeAll(typeFacts(v))
-		x.assumeOld(st, v)
+		kind := "H"
+		if p.Kind == pElem || p.Kind == pArr {
+			kind = "M"
+		}
+		for j, l := range leaves {
+			if l.Kind == lkSliceArr || (l.Kind == lkPlain && l.T != nil && isRefLike(l.T)) {
+				lf := leafAt(p.Base, p.Off+j)
+				st.assume(mkCmp("<=", v.L[j], x.heapTopOf(st, heapName(kind, p.Base, lf.Path))))
+			}
+		}
 	}
 	return v
 }
